@@ -224,10 +224,10 @@ Proof.
   apply Z.eqb_eq in E. subst. split; [auto|congruence].
 Qed.
 
-Lemma inv_alloc : forall h L i k c,
-  Inv h L -> hfind h i = None -> Inv ((i, mkNode 1 k [] c) :: h) (upd L i 1).
+Lemma inv_alloc : forall h L i k c u,
+  Inv h L -> hfind h i = None -> Inv ((i, mkNode 1 k [] c u) :: h) (upd L i 1).
 Proof.
-  intros h L i k c I F. pose proof (inv_Ldead _ _ I i F) as L0.
+  intros h L i k c u I F. pose proof (inv_Ldead _ _ I i F) as L0.
   pose proof (indeg_dead _ _ _ I F) as D0.
   constructor.
   - simpl. constructor; [apply hfind_none_keys; auto|apply (inv_nodup _ _ I)].
@@ -236,7 +236,7 @@ Proof.
     + inversion H; subst. simpl in X. tauto.
     + destruct (i =? x); [congruence|]. apply (inv_kids _ _ I j n x H X).
   - intros j n H. simpl in H.
-    change (indeg ((i, mkNode 1 k [] c) :: h) j) with (cntk [] j + indeg h j).
+    change (indeg ((i, mkNode 1 k [] c u) :: h) j) with (cntk [] j + indeg h j).
     change (cntk [] j) with 0.
     destruct (i =? j) eqn:E.
     + apply Z.eqb_eq in E. subst j. inversion H; subst. simpl. rewrite upd_same. lia.
@@ -396,7 +396,7 @@ Fixpoint dids (evs : list ev) : list id :=
 Lemma dids_app : forall a b, dids (a ++ b) = dids a ++ dids b.
 Proof. induction a as [|[i c|i t] a IH]; intros; simpl; [reflexivity| |]; rewrite IH; reflexivity. Qed.
 
-Lemma nodup_app : forall (a b : list id), NoDup a -> NoDup b -> (forall x, In x a -> ~ In x b) -> NoDup (a ++ b).
+Lemma nodup_app : forall {A} (a b : list A), NoDup a -> NoDup b -> (forall x, In x a -> ~ In x b) -> NoDup (a ++ b).
 Proof.
   induction a; intros; simpl; [auto|]. inversion H; subst. constructor.
   - intro X. apply in_app_or in X. destruct X; [auto|]. apply (H1 a); simpl; auto.
@@ -404,7 +404,7 @@ Proof.
 Qed.
 
 Definition same_but_rc (n n' : node) : Prop :=
-  nkind n' = nkind n /\ children n' = children n /\ cb n' = cb n /\ rc n' <= rc n.
+  nkind n' = nkind n /\ children n' = children n /\ cb n' = cb n /\ ud n' = ud n /\ rc n' <= rc n.
 
 Record PStruct (h h' : heap) (evs : list ev) : Prop := mkPS {
   ps_dead : forall j, hfind h j = None -> hfind h' j = None;
@@ -724,11 +724,16 @@ Record HStruct (h h' : heap) (evs : list ev) : Prop := mkHS {
   hs_dead : forall j, hfind h j = None -> hfind h' j = None;
   hs_log : forall j, In j (dids evs) <-> (hfind h j <> None /\ hfind h' j = None);
   hs_nodup : NoDup (dids evs);
-  hs_cb : forall j c, In (EDestroy j c) evs -> exists n, hfind h j = Some n /\ cb n = c
+  hs_cb : forall j c, In (EDestroy j c) evs -> exists n, hfind h j = Some n /\ cb n = c;
+  hs_keepcb : forall j n', hfind h' j = Some n' -> exists n, hfind h j = Some n /\ cb n' = cb n;
+  hs_nouser : forall j t, ~ In (EUser j t) evs
 }.
 
 Lemma hstruct_of_ps : forall h h' evs, PStruct h h' evs -> HStruct h h' evs.
-Proof. intros h h' evs [A B C D E F]. constructor; auto. Qed.
+Proof.
+  intros h h' evs [A B C D E F]. constructor; auto.
+  intros j n' H. destruct (B j n' H) as (n & Hn & S). exists n. split; [auto|]. unfold same_but_rc in S. tauto.
+Qed.
 
 Lemma hstruct_refl : forall h, HStruct h h [].
 Proof. intros. apply hstruct_of_ps. apply ps_refl. Qed.
@@ -746,6 +751,10 @@ Proof.
     destruct (p =? j) eqn:Y.
     + apply Z.eqb_eq in Y. subst j. inversion M1; subst. exists n. auto.
     + exists m. auto.
+  - intros j n' H. destruct (B j n' H) as (m & M1 & S). unfold same_but_rc in S.
+    rewrite hfind_hset in M1. destruct (p =? j) eqn:Y.
+    + apply Z.eqb_eq in Y. subst j. inversion M1; subst. exists n. split; [auto|]. simpl in S. tauto.
+    + exists m. split; [auto|tauto].
 Qed.
 
 Definition res_ok (s : state) (L' : Z -> ledger) (r : res) : Prop :=
@@ -1066,7 +1075,7 @@ Proof.
   destruct HS as (HS1 & HS2).
   destruct (hfind h0 c) as [n|] eqn:F0; [|exfalso; apply LV; auto].
   rewrite (HS2 c n F0 RC).
-  destruct (negb custom && has_cb n); [exact Logic.I|].
+  destruct (negb custom && has_userinfo n); [exact Logic.I|].
   destruct SI as (I & IDS & NP).
   set (me := nxt s).
   assert (FME : hfind (heap_of s) me = None).
@@ -1074,7 +1083,7 @@ Proof.
     assert (me < nxt s) by (apply IDS; unfold live; congruence). unfold me in *. lia. }
   assert (H0ME : hfind h0 me = None).
   { destruct (hfind h0 me) eqn:E; [|reflexivity]. rewrite (BO me _ E) in FME. discriminate. }
-  set (nd := mkNode 1 (nkind n) [] (if custom then Some 0 else None)).
+  set (nd := mkNode 1 (nkind n) [] (if custom then Some 0 else None) custom).
   set (s1 := mkSt ((me, nd) :: heap_of s) (me + 1)).
   assert (SI1 : SInv s1 (upd L me 1)).
   { split; [apply inv_alloc; auto|]. split; [|simpl; unfold me; lia].
@@ -1120,12 +1129,60 @@ Proof.
 Qed.
 
 (* ------------------------------------------------------------------ one step *)
+(* the registrations released by a list of events: (node, registration number) *)
+Fixpoint rels (evs : list ev) : list (id * Z) :=
+  match evs with
+  | [] => []
+  | EDestroy i (Some t) :: r => (i, t) :: rels r
+  | EDestroy _ None :: r => rels r
+  | EUser i t :: r => (i, t) :: rels r
+  end.
+
+Lemma rels_app : forall a b, rels (a ++ b) = rels a ++ rels b.
+Proof. induction a as [|[i [t|]|i t] a IH]; intros; simpl; try rewrite IH; reflexivity. Qed.
+
+Lemma rels_dids : forall evs i t, (forall j u, ~ In (EUser j u) evs) -> In (i, t) (rels evs) -> In i (dids evs).
+Proof.
+  induction evs as [|[j [c|]|j u] r IH]; intros i t NU H; simpl in *; [tauto| | |].
+  - destruct H as [H|H]; [inversion H; auto|]. right. apply (IH i t); auto. intros a b X. apply (NU a b). auto.
+  - right. apply (IH i t); auto. intros a b X. apply (NU a b). auto.
+  - exfalso. apply (NU j u). auto.
+Qed.
+
+Lemma rels_nodup : forall evs, (forall j u, ~ In (EUser j u) evs) -> NoDup (dids evs) -> NoDup (rels evs).
+Proof.
+  induction evs as [|[j [c|]|j u] r IH]; intros NU ND; simpl in *; [constructor| | |].
+  - inversion ND; subst. constructor.
+    + intro X. apply H1. apply (rels_dids r j c); auto. intros a b Y. apply (NU a b). auto.
+    + apply IH; auto. intros a b Y. apply (NU a b). auto.
+  - inversion ND; subst. apply IH; auto. intros a b Y. apply (NU a b). auto.
+  - exfalso. apply (NU j u). auto.
+Qed.
+
+Lemma rels_destroy : forall evs i t, In (i, t) (rels evs) -> In (EDestroy i (Some t)) evs \/ In (EUser i t) evs.
+Proof.
+  induction evs as [|[j [c|]|j u] r IH]; intros i t H; simpl in *; [tauto| | |].
+  - destruct H as [H|H]; [inversion H; auto|]. destruct (IH i t H); auto.
+  - destruct (IH i t H); auto.
+  - destruct H as [H|H]; [inversion H; auto|]. destruct (IH i t H); auto.
+Qed.
+
+(* what may have happened to the registration of a node that exists after the step *)
+Definition cb_after (s s' : state) (evs : list ev) (i : id) (n' : node) : Prop :=
+  (exists n, hfind (heap_of s) i = Some n /\ cb n' = cb n /\ forall t, ~ In (i, t) (rels evs)) \/
+  cb n' = None \/
+  (cb n' = Some 0 /\ hfind (heap_of s) i = None) \/
+  (cb n' = Some (nxt s) /\ nxt s < nxt s').
+
 Record SFacts (s s' : state) (evs : list ev) : Prop := mkSF {
   sf_nxt : nxt s <= nxt s';
   sf_fresh : forall j, hfind (heap_of s) j = None -> hfind (heap_of s') j <> None -> nxt s <= j < nxt s';
   sf_log : forall j, In j (dids evs) <-> (hfind (heap_of s) j <> None /\ hfind (heap_of s') j = None);
   sf_nodup : NoDup (dids evs);
-  sf_cb : forall j c, In (EDestroy j c) evs -> exists n, hfind (heap_of s) j = Some n /\ cb n = c
+  sf_cb : forall j c, In (EDestroy j c) evs -> exists n, hfind (heap_of s) j = Some n /\ cb n = c;
+  sf_rel : forall i t, In (i, t) (rels evs) -> exists n, hfind (heap_of s) i = Some n /\ cb n = Some t;
+  sf_relnodup : NoDup (rels evs);
+  sf_after : forall i n', hfind (heap_of s') i = Some n' -> cb_after s s' evs i n'
 }.
 
 Definition step_good (s : state) (L : ledger) (o : op) : Prop :=
@@ -1135,8 +1192,12 @@ Definition step_good (s : state) (L : ledger) (o : op) : Prop :=
 Lemma sfacts_of_hstruct : forall s s' evs,
   nxt s' = nxt s -> HStruct (heap_of s) (heap_of s') evs -> SFacts s s' evs.
 Proof.
-  intros s s' evs N [A B C D]. constructor; auto; try lia.
-  intros j H H2. exfalso. apply H2. auto.
+  intros s s' evs N [A B C D K U]. constructor; auto; try lia.
+  - intros j H H2. exfalso. apply H2. auto.
+  - intros i t X. destruct (rels_destroy _ _ _ X) as [Y|Y]; [apply (D i (Some t) Y)|exfalso; apply (U i t Y)].
+  - apply rels_nodup; auto.
+  - intros i n' H. left. destruct (K i n' H) as (n & Hn & E). exists n. split; [auto|]. split; [auto|].
+    intros t X. apply (rels_dids _ _ _ U) in X. apply B in X. destruct X as [_ X]. congruence.
 Qed.
 
 Lemma sinv_of_hstruct : forall s L s' L' evs,
@@ -1146,13 +1207,23 @@ Proof.
   intros j LJ. rewrite N. apply IDS. intro X. apply LJ. apply (hs_dead _ _ _ HS). auto.
 Qed.
 
-Lemma sfacts_of_grows : forall s s', grows s s' (fun _ => True) -> SFacts s s' [].
+(* new nodes come with the registration made at creation (number 0) or with none *)
+Definition newcb (s s' : state) : Prop :=
+  forall j n', hfind (heap_of s') j = Some n' -> hfind (heap_of s) j = None -> cb n' = Some 0 \/ cb n' = None.
+
+Lemma sfacts_of_grows : forall s s', grows s s' (fun _ => True) -> newcb s s' -> SFacts s s' [].
 Proof.
-  intros s s' (A & B & C). constructor; auto.
+  intros s s' (A & B & C) NC. constructor; auto.
   - intros j. simpl. split; [tauto|]. intros [X Y]. destruct (hfind (heap_of s) j) eqn:E; [|congruence].
     rewrite (B j n Logic.I E) in Y. discriminate.
   - constructor.
   - intros j c X. simpl in X. tauto.
+  - intros i t X. simpl in X. tauto.
+  - constructor.
+  - intros i n' H. destruct (hfind (heap_of s) i) as [n|] eqn:E.
+    + left. exists n. rewrite (B i n Logic.I E) in H. inversion H; subst. split; [auto|]. split; [auto|].
+      intros t X. simpl in X. tauto.
+    + destruct (NC i n' H E) as [X|X]; [right; right; left; auto|right; left; auto].
 Qed.
 
 Lemma res_ok_good : forall s L L' r, SInv s L -> res_ok s L' r ->
@@ -1162,14 +1233,17 @@ Proof.
   exists s', ret, evs. split; [auto|]. split; [eapply sinv_of_hstruct; eauto|apply sfacts_of_hstruct; auto].
 Qed.
 
-Lemma hstruct_hset : forall h i n n' evs, hfind h i = Some n -> dids evs = [] ->
-  (forall j c, ~ In (EDestroy j c) evs) -> HStruct h (hset h i n') evs.
+Lemma hstruct_hset : forall h i n n', hfind h i = Some n -> cb n' = cb n -> HStruct h (hset h i n') [].
 Proof.
-  intros h i n n' evs F DE NE. constructor.
+  intros h i n n' F CB. constructor.
   - intros j H. rewrite hfind_hset. destruct (i =? j) eqn:E; [apply Z.eqb_eq in E; congruence|auto].
-  - intros j. rewrite DE, hfind_hset. simpl. split; [tauto|]. intros [A B]. destruct (i =? j); congruence.
-  - rewrite DE. constructor.
-  - intros j c X. exfalso. apply (NE j c X).
+  - intros j. rewrite hfind_hset. simpl. split; [tauto|]. intros [A B]. destruct (i =? j); congruence.
+  - constructor.
+  - intros j c X. simpl in X. tauto.
+  - intros j m H. rewrite hfind_hset in H. destruct (i =? j) eqn:E.
+    + apply Z.eqb_eq in E. subst j. inversion H; subst. eauto.
+    + eauto.
+  - intros j t X. simpl in X. tauto.
 Qed.
 
 Lemma dec_val_nonneg : forall l acc, forallb is_digit l = true -> 0 <= acc -> 0 <= dec_val acc l.
@@ -1230,15 +1304,17 @@ Proof.
   assert (F : hfind (heap_of s) (nxt s) = None).
   { destruct (hfind (heap_of s) (nxt s)) eqn:E; [|reflexivity].
     assert (nxt s < nxt s) by (apply IDS; unfold live; congruence). lia. }
-  exists (mkSt ((nxt s, mkNode 1 k [] (Some 0)) :: heap_of s) (nxt s + 1)), (nxt s), [].
+  exists (mkSt ((nxt s, mkNode 1 k [] (Some 0) true) :: heap_of s) (nxt s + 1)), (nxt s), [].
   split; [reflexivity|]. split.
   - split; [apply inv_alloc; auto|]. split; [|simpl; lia].
     intros j LJ. unfold live in LJ. simpl in *. destruct (nxt s =? j) eqn:E.
     + apply Z.eqb_eq in E. lia.
     + assert (j < nxt s) by (apply IDS; auto). lia.
-  - apply sfacts_of_grows. split; [simpl; lia|]. split.
-    + intros j n _ H. simpl. destruct (nxt s =? j) eqn:E; [apply Z.eqb_eq in E; subst; congruence|auto].
-    + intros j H H2. simpl in *. destruct (nxt s =? j) eqn:E; [apply Z.eqb_eq in E; lia|congruence].
+  - apply sfacts_of_grows.
+    + split; [simpl; lia|]. split.
+      * intros j n _ H. simpl. destruct (nxt s =? j) eqn:E; [apply Z.eqb_eq in E; subst; congruence|auto].
+      * intros j H H2. simpl in *. destruct (nxt s =? j) eqn:E; [apply Z.eqb_eq in E; lia|congruence].
+    + intros j n' H H2. simpl in H. destruct (nxt s =? j); [inversion H; subst; simpl; auto|congruence].
 Qed.
 
 Lemma get_good : forall s L i, SInv s L -> live (heap_of s) i -> step_good s L (OGet i).
@@ -1266,22 +1342,38 @@ Proof.
   split; [eapply sinv_of_hstruct; eauto|apply sfacts_of_hstruct; auto].
 Qed.
 
-Lemma setud_good : forall s L i c, SInv s L -> live (heap_of s) i -> step_good s L (OSetUd i c).
+Lemma setud_good : forall s L i u d, SInv s L -> live (heap_of s) i -> step_good s L (OSetUd i u d).
 Proof.
-  intros s L i c SI LV. pose proof SI as (I & IDS & NP).
+  intros s L i u d SI LV. pose proof SI as (I & IDS & NP).
   destruct (hfind (heap_of s) i) as [n|] eqn:F; [|exfalso; apply LV; auto].
   set (evs := match cb n with Some t => [EUser i t] | None => [] end).
-  assert (HS : HStruct (heap_of s) (hset (heap_of s) i (set_cb n c)) evs).
-  { apply (hstruct_hset _ i n); auto.
-    - unfold evs. destruct (cb n); reflexivity.
-    - intros j x X. unfold evs in X. destruct (cb n); simpl in X; [destruct X; [discriminate|tauto]|tauto]. }
-  exists (mkSt (hset (heap_of s) i (set_cb n c)) (nxt s)), 0, evs.
+  set (n' := set_cb n (if d then Some (nxt s) else None) u).
+  assert (DE : dids evs = []) by (unfold evs; destruct (cb n); reflexivity).
+  assert (NN : forall j, hfind (hset (heap_of s) i n') j = None <-> hfind (heap_of s) j = None).
+  { intros. rewrite hfind_hset. destruct (i =? j) eqn:X; [|tauto]. apply Z.eqb_eq in X. subst. split; congruence. }
+  exists (mkSt (hset (heap_of s) i n') (nxt s + 1)), 0, evs.
   split; [simpl; unfold set_ud; rewrite F; reflexivity|]. split.
-  - eapply sinv_of_hstruct; eauto. simpl.
-    destruct (inv_rc _ _ I i n F). pose proof (inv_L _ _ I i).
-    eapply Inv_ext; [|apply (inv_same_children _ L i n (set_cb n c) 0); auto; simpl; lia].
-    intros j. unfold upd. destruct (j =? i); lia.
-  - apply sfacts_of_hstruct; auto.
+  - split; [|split; [|simpl; lia]].
+    + simpl. destruct (inv_rc _ _ I i n F). pose proof (inv_L _ _ I i).
+      eapply Inv_ext; [|apply (inv_same_children _ L i n n' 0); auto; unfold n'; simpl; lia].
+      intros j. unfold upd. destruct (j =? i); lia.
+    + intros j LJ. simpl in *. assert (j < nxt s); [|lia].
+      apply IDS. intro X. apply LJ. apply NN. auto.
+  - apply mkSF.
+    + simpl. lia.
+    + intros j H H2. exfalso. apply H2. simpl. apply NN. exact H.
+    + intros j. rewrite DE. simpl. split; [tauto|]. intros [A B]. apply NN in B. congruence.
+    + rewrite DE. constructor.
+    + intros j c X. unfold evs in X. destruct (cb n); simpl in X; [destruct X; [discriminate|tauto]|tauto].
+    + intros j t X. unfold evs in X. destruct (cb n) as [t0|] eqn:CB; simpl in X; [|tauto].
+      destruct X as [X|X]; [|tauto]. inversion X; subst. exists n. auto.
+    + unfold evs. destruct (cb n); simpl; [constructor; [simpl; tauto|constructor]|constructor].
+    + intros j m H. cbn [heap_of] in H. rewrite hfind_hset in H. destruct (i =? j) eqn:E.
+      * apply Z.eqb_eq in E. subst j. inversion H; subst m. unfold n'. simpl.
+        destruct d; [right; right; right; split; [reflexivity|simpl; lia]|right; left; reflexivity].
+      * left. exists m. split; [auto|]. split; [auto|]. intros t X.
+        unfold evs in X. destruct (cb n); simpl in X; [|tauto].
+        destruct X as [X|X]; [|tauto]. inversion X; subst. rewrite Z.eqb_refl in E. discriminate.
 Qed.
 
 Lemma use_good : forall s L i, SInv s L -> live (heap_of s) i -> step_good s L (OUse i).
@@ -1289,6 +1381,81 @@ Proof.
   intros s L i SI LV. destruct (hfind (heap_of s) i) as [n|] eqn:F; [|exfalso; apply LV; auto].
   exists s, 0, []. split; [simpl; unfold use_node; rewrite F; reflexivity|]. split; [auto|].
   apply sfacts_of_hstruct; [auto|apply hstruct_refl].
+Qed.
+
+(* registrations under a deep copy (structural, no invariant needed): old nodes keep theirs,
+   the copies come with number 0 or none *)
+Definition cbext (s s' : state) : Prop :=
+  (forall j n, hfind (heap_of s) j = Some n -> exists n', hfind (heap_of s') j = Some n' /\ cb n' = cb n) /\
+  newcb s s'.
+
+Lemma cbext_refl : forall s, cbext s s.
+Proof. intros. split; [eauto|]. intros j n' H H2. congruence. Qed.
+
+Lemma cbext_trans : forall s s1 s2, cbext s s1 -> cbext s1 s2 -> cbext s s2.
+Proof.
+  intros s s1 s2 (A1 & B1) (A2 & B2). split.
+  - intros j n H. destruct (A1 j n H) as (n1 & H1 & C1). destruct (A2 j n1 H1) as (n2 & H2 & C2).
+    exists n2. split; [auto|congruence].
+  - intros j n2 H2 H. destruct (hfind (heap_of s1) j) as [n1|] eqn:E.
+    + destruct (A2 j n1 E) as (m & M1 & M2). rewrite H2 in M1. inversion M1; subst m.
+      rewrite M2. apply (B1 j n1 E H).
+    + apply (B2 j n2 H2 E).
+Qed.
+
+Lemma cbext_attach : forall s me k v, cbext s (attach s me k v).
+Proof.
+  intros. unfold attach. destruct (hfind (heap_of s) me) as [m|] eqn:F; [|apply cbext_refl].
+  split.
+  - intros j n H. cbn [heap_of]. rewrite hfind_hset. destruct (me =? j) eqn:E.
+    + apply Z.eqb_eq in E. subst j. rewrite F in H. inversion H; subst. eexists. split; [reflexivity|reflexivity].
+    + eauto.
+  - intros j n' H H2. cbn [heap_of] in H. rewrite hfind_hset in H. destruct (me =? j) eqn:E; [|congruence].
+    apply Z.eqb_eq in E. subst j. congruence.
+Qed.
+
+Definition WF (s : state) : Prop := forall j, hfind (heap_of s) j <> None -> j < nxt s.
+
+Lemma wf_attach : forall s me k v, WF s -> WF (attach s me k v).
+Proof.
+  intros s me k v W. unfold attach. destruct (hfind (heap_of s) me) as [m|] eqn:F; [|auto].
+  intros j H. cbn [heap_of nxt] in *. rewrite hfind_hset in H. destruct (me =? j) eqn:E; [|auto].
+  apply Z.eqb_eq in E. subst j. apply W. congruence.
+Qed.
+
+Lemma copy_kids_cbext : forall C me,
+  (forall s c s' r, WF s -> C s c = COk s' r -> WF s' /\ cbext s s') ->
+  forall cs s s', WF s -> copy_kids C me cs s = KOk s' -> WF s' /\ cbext s s'.
+Proof.
+  intros C me HC. induction cs as [|[k [c|]] t IH]; intros s s' W H; simpl in H.
+  - inversion H; subst. split; [auto|apply cbext_refl].
+  - destruct (C s c) as [s1 r| | |] eqn:E; try discriminate.
+    destruct (HC _ _ _ _ W E) as (W1 & X1).
+    destruct (IH _ _ (wf_attach s1 me (kstrip k) (Some r) W1) H) as (W2 & X2).
+    split; [auto|]. eapply cbext_trans; [exact X1|]. eapply cbext_trans; [apply cbext_attach|exact X2].
+  - destruct (IH _ _ (wf_attach s me (kstrip k) None W) H) as (W2 & X2).
+    split; [auto|]. eapply cbext_trans; [apply cbext_attach|exact X2].
+Qed.
+
+Lemma copy_f_cbext : forall f cu hs s src s' r, WF s -> copy_f f cu hs s src = COk s' r -> WF s' /\ cbext s s'.
+Proof.
+  induction f as [|f IH]; intros cu hs s src s' r W H; simpl in H; [discriminate|].
+  destruct (hfind hs src) as [n|]; [|discriminate].
+  destruct (negb cu && has_userinfo n); [discriminate|].
+  destruct (copy_kids _ _ _ _) as [s2| | |] eqn:CK; try discriminate. inversion H; subst.
+  set (s1 := mkSt ((nxt s, mkNode 1 (nkind n) [] (if cu then Some 0 else None) cu) :: heap_of s) (nxt s + 1)) in *.
+  assert (W1 : WF s1).
+  { intros j Hj. simpl in *. destruct (nxt s =? j) eqn:E; [apply Z.eqb_eq in E; lia|].
+    specialize (W j Hj). lia. }
+  assert (X1 : cbext s s1).
+  { split.
+    - intros j m Hj. simpl. destruct (nxt s =? j) eqn:E; [|eauto].
+      apply Z.eqb_eq in E. subst j. assert (nxt s < nxt s) by (apply W; congruence). lia.
+    - intros j n' Hj H2. simpl in Hj. destruct (nxt s =? j); [|congruence].
+      inversion Hj; subst. simpl. destruct cu; auto. }
+  destruct (copy_kids_cbext _ (nxt s) (fun s0 c s0' r0 W0 E0 => IH cu (hdel hs src) s0 c s0' r0 W0 E0)
+              _ _ _ W1 CK) as (W2 & X2).
+  split; [auto|eapply cbext_trans; eauto].
 Qed.
 
 Lemma copy_good : forall s L src cu, SInv s L -> live (heap_of s) src -> step_good s L (OCopy src cu).
@@ -1299,9 +1466,11 @@ Proof.
   pose proof (copy_f_spec (heap_of s) rk cu R (inv_kids _ _ I) (S (length (heap_of s))) (heap_of s)
                 (S (rk src)) HS ltac:(lia) s L src SI ltac:(intros i n H; exact H) LV ltac:(lia)) as SP.
   unfold step_good. simpl. unfold deep_copy.
-  destruct (copy_f (S (length (heap_of s))) cu (heap_of s) s src) as [s' r| | |]; try contradiction.
+  destruct (copy_f (S (length (heap_of s))) cu (heap_of s) s src) as [s' r| | |] eqn:CF; try contradiction.
   - destruct SP as (SI' & RR & G). exists s', r, []. split; [reflexivity|].
     replace (0 <=? r) with true by lia. split; [auto|apply sfacts_of_grows; auto].
+    assert (W : WF s) by (intros j Hj; apply IDS; exact Hj).
+    destruct (copy_f_cbext _ _ _ _ _ _ _ W CF) as (_ & (_ & NC)). exact NC.
   - exists s, (-1), []. split; [reflexivity|]. simpl. split; [auto|].
     apply sfacts_of_hstruct; [auto|apply hstruct_refl].
 Qed.
@@ -1415,17 +1584,73 @@ Proof.
       assert (j < nxt s) by (apply IDS; exact A). lia.
 Qed.
 
-Theorem run_invariant : forall ops s L log,
-  SInv s L -> LogInv s log -> adm_hist s L ops ->
-  exists s' L' tr, run s L ops = Some (s', L', tr) /\ SInv s' L' /\ LogInv s' (log ++ all_evs tr).
+(* registrations: everything released so far is released once, belongs to a node that is
+   gone or carries a different registration now, and registration numbers are below the counter *)
+Definition RegInv (s : state) (log : list ev) : Prop :=
+  NoDup (rels log) /\
+  (forall i t, In (i, t) (rels log) ->
+     t < nxt s /\ i < nxt s /\ forall n, hfind (heap_of s) i = Some n -> cb n <> Some t) /\
+  (forall i n t, hfind (heap_of s) i = Some n -> cb n = Some t -> t < nxt s).
+
+Lemma reginv_step : forall s L s' log evs,
+  SInv s L -> 0 < nxt s' -> RegInv s log -> SFacts s s' evs -> RegInv s' (log ++ evs).
 Proof.
-  induction ops as [|o t IH]; intros s L log SI LI AH; simpl in *.
+  intros s L s' log evs (I & IDS & NP) NP' (ND & LG & CUR) SF.
+  pose proof (sf_nxt _ _ _ SF) as NX.
+  assert (AFTER : forall i t n', hfind (heap_of s') i = Some n' -> cb n' = Some t ->
+            (exists n, hfind (heap_of s) i = Some n /\ cb n = Some t /\ forall u, ~ In (i, u) (rels evs)) \/
+            (t = 0 /\ hfind (heap_of s) i = None) \/ (t = nxt s /\ nxt s < nxt s')).
+  { intros i t n' H C. destruct (sf_after _ _ _ SF i n' H) as [(n & Hn & E & NR)|[E|[(E & D)|(E & D)]]].
+    - left. exists n. split; [auto|]. split; [congruence|auto].
+    - congruence.
+    - right. left. split; [congruence|auto].
+    - right. right. split; [congruence|auto]. }
+  split; [|split].
+  - rewrite rels_app. apply nodup_app; [auto|apply (sf_relnodup _ _ _ SF)|].
+    intros [i t] X Y. destruct (sf_rel _ _ _ SF i t Y) as (n & Hn & C).
+    destruct (LG i t X) as (_ & _ & Z). apply (Z n Hn C).
+  - intros i t X. rewrite rels_app in X. apply in_app_or in X. destruct X as [X|X].
+    + destruct (LG i t X) as (T & II & Z). split; [lia|]. split; [lia|].
+      intros n' H C. destruct (AFTER i t n' H C) as [(n & Hn & Cn & _)|[(T0 & D)|(T0 & _)]].
+      * apply (Z n Hn Cn).
+      * assert (nxt s <= i < nxt s') by (apply (sf_fresh _ _ _ SF); congruence). lia.
+      * lia.
+    + destruct (sf_rel _ _ _ SF i t X) as (n & Hn & C).
+      assert (T : t < nxt s) by (apply (CUR i n t Hn C)).
+      assert (II : i < nxt s) by (apply IDS; unfold live; congruence).
+      split; [lia|]. split; [lia|].
+      intros n' H C'. destruct (AFTER i t n' H C') as [(m & Hm & Cm & NR)|[(T0 & D)|(T0 & _)]].
+      * apply (NR t X).
+      * congruence.
+      * lia.
+  - intros i n' t H C. destruct (AFTER i t n' H C) as [(n & Hn & Cn & _)|[(T0 & D)|(T0 & D)]].
+    + specialize (CUR i n t Hn Cn). lia.
+    + lia.
+    + lia.
+Qed.
+
+Theorem run_invariant : forall ops s L log,
+  SInv s L -> LogInv s log -> RegInv s log -> adm_hist s L ops ->
+  exists s' L' tr, run s L ops = Some (s', L', tr) /\ SInv s' L' /\ LogInv s' (log ++ all_evs tr) /\
+                   RegInv s' (log ++ all_evs tr).
+Proof.
+  induction ops as [|o t IH]; intros s L log SI LI RI AH; simpl in *.
   - exists s, L, []. rewrite app_nil_r. auto.
   - destruct AH as (A & AH).
     destruct (step_preserves s L o SI A) as (s1 & ret & evs & E & SI1 & SF). rewrite E in *.
-    destruct (IH s1 _ (log ++ evs) SI1 (loginv_step _ _ _ _ _ SI LI SF) AH) as (s2 & L2 & tr & R & SI2 & LI2).
+    assert (RI1 : RegInv s1 (log ++ evs)).
+    { apply (reginv_step s L); auto. destruct SI1 as (_ & _ & NP1). exact NP1. }
+    destruct (IH s1 _ (log ++ evs) SI1 (loginv_step _ _ _ _ _ SI LI SF) RI1 AH) as (s2 & L2 & tr & R & SI2 & LI2 & RI2).
     rewrite R. exists s2, L2, ((o, ret, evs) :: tr). split; [reflexivity|]. split; [auto|].
     simpl. rewrite app_assoc. auto.
+Qed.
+
+Lemma loginv_init : LogInv init_state [].
+Proof. split; [constructor|]. simpl. tauto. Qed.
+
+Lemma reginv_init : RegInv init_state [].
+Proof.
+  split; [constructor|]. split; [simpl; tauto|]. intros i n t H. simpl in H. discriminate.
 Qed.
 
 (* rc_invariant: after any admissible history every live node has rc = ledger + in-degree > 0,
@@ -1436,9 +1661,9 @@ Theorem rc_invariant : forall ops,
     forall i n, hfind (heap_of s') i = Some n -> rc n = L' i + indeg (heap_of s') i /\ rc n > 0.
 Proof.
   intros ops AH.
-  destruct (run_invariant ops init_state L0 [] sinv_init) as (s' & L' & tr & R & (I & _) & _); auto.
-  - split; [constructor|]. simpl. tauto.
-  - exists s', L', tr. split; [auto|]. split; [auto|]. intros. apply (inv_rc _ _ I i n H).
+  destruct (run_invariant ops init_state L0 [] sinv_init loginv_init reginv_init AH)
+    as (s' & L' & tr & R & (I & _) & _).
+  exists s', L', tr. split; [auto|]. split; [auto|]. intros. apply (inv_rc _ _ I i n H).
 Qed.
 
 (* destroyed_once, history part: over a whole admissible history no node is logged twice *)
@@ -1448,10 +1673,36 @@ Theorem destroyed_once_history : forall ops,
     forall j, In j (dids (all_evs tr)) -> hfind (heap_of s') j = None.
 Proof.
   intros ops AH.
-  destruct (run_invariant ops init_state L0 [] sinv_init) as (s' & L' & tr & R & _ & (ND & LG)); auto.
-  - split; [constructor|]. simpl. tauto.
-  - exists s', L', tr. simpl in *. split; [auto|]. split; [auto|]. intros. apply LG. auto.
+  destruct (run_invariant ops init_state L0 [] sinv_init loginv_init reginv_init AH)
+    as (s' & L' & tr & R & _ & (ND & LG) & _).
+  exists s', L', tr. simpl in *. split; [auto|]. split; [auto|]. intros. apply LG. auto.
 Qed.
+
+(* registrations (userdata + delete callback): over a whole admissible history no registration's
+   callback runs twice, and the registration a live node carries at the end has not run yet *)
+Theorem registration_released_once : forall ops,
+  adm_hist init_state L0 ops ->
+  exists s' L' tr, run init_state L0 ops = Some (s', L', tr) /\ NoDup (rels (all_evs tr)) /\
+    forall i n t, hfind (heap_of s') i = Some n -> cb n = Some t -> ~ In (i, t) (rels (all_evs tr)).
+Proof.
+  intros ops AH.
+  destruct (run_invariant ops init_state L0 [] sinv_init loginv_init reginv_init AH)
+    as (s' & L' & tr & R & _ & _ & (ND & LG & _)).
+  exists s', L', tr. simpl in *. split; [auto|]. split; [auto|].
+  intros i n t H C X. destruct (LG i t X) as (_ & _ & Z). apply (Z n H C).
+Qed.
+
+(* ... and it runs exactly when the registration ends: set_userdata / set_serializer invoke the
+   callback registered before — whatever the old userdata was — exactly once, install the new
+   pair under a fresh number and change nothing else; (the other end, destruction, is
+   [destroyed_exactly]: the EDestroy event carries the callback installed at that time) *)
+Theorem set_userdata_releases_old : forall s i u d n,
+  hfind (heap_of s) i = Some n ->
+  step s (OSetUd i u d) =
+    ROk (mkSt (hset (heap_of s) i (mkNode (rc n) (nkind n) (children n) (if d then Some (nxt s) else None) u))
+              (nxt s + 1))
+        0 (match cb n with Some t => [EUser i t] | None => [] end).
+Proof. intros. simpl. unfold set_ud. rewrite H. reflexivity. Qed.
 
 (* who keeps a node alive *)
 Lemma live_iff_owned : forall h L j, Inv h L ->
@@ -1526,7 +1777,7 @@ Theorem survives_parent : forall s L p,
   exists s' ret evs, step s (OPut p) = ROk s' ret evs /\
     forall c, upd L p (-1) c > 0 ->
       exists n n', hfind (heap_of s) c = Some n /\ hfind (heap_of s') c = Some n' /\
-        nkind n' = nkind n /\ children n' = children n /\ cb n' = cb n /\
+        nkind n' = nkind n /\ children n' = children n /\ cb n' = cb n /\ ud n' = ud n /\
         rc n' = upd L p (-1) c + indeg (heap_of s') c /\
         (forall x, In x (kid_ids (children n')) -> live (heap_of s') x).
 Proof.
@@ -1538,7 +1789,7 @@ Proof.
   intros c OC.
   assert (O1 : upd L p (-1) c >= 1) by lia.
   destruct (inv_owned_live _ _ _ I' O1) as [n' F'].
-  destruct (ps_keep _ _ _ PS c n' F') as (n & F & (S1 & S2 & S3 & S4)).
+  destruct (ps_keep _ _ _ PS c n' F') as (n & F & (S1 & S2 & S3 & S3u & S4)).
   exists n, n'. repeat split; auto.
   - apply (inv_rc _ _ I' c n' F').
   - intros x X. apply (inv_kids _ _ I' c n' x F' X).
@@ -1622,7 +1873,7 @@ Lemma copy_f_root : forall f cu hs s src s1 r, copy_f f cu hs s src = COk s1 r -
 Proof.
   intros f cu hs s src s1 r H. destruct f; simpl in H; [discriminate|].
   destruct (hfind hs src); [|discriminate].
-  destruct (negb cu && has_cb n); [discriminate|].
+  destruct (negb cu && has_userinfo n); [discriminate|].
   destruct (copy_kids _ _ _ _); try discriminate. inversion H; reflexivity.
 Qed.
 
@@ -1691,9 +1942,9 @@ Corollary all_released_empty_history : forall ops s' L' tr,
   (forall i, L' i = 0) -> heap_of s' = [].
 Proof.
   intros ops s' L' tr AH R Z.
-  destruct (run_invariant ops init_state L0 [] sinv_init) as (s2 & L2 & tr2 & R2 & (I & _) & _); auto.
-  - split; [constructor|]. simpl. tauto.
-  - rewrite R in R2. inversion R2; subst. eapply all_released_empty; eauto.
+  destruct (run_invariant ops init_state L0 [] sinv_init loginv_init reginv_init AH)
+    as (s2 & L2 & tr2 & R2 & (I & _) & _).
+  rewrite R in R2. inversion R2; subst. eapply all_released_empty; eauto.
 Qed.
 
 (* ------------------------------------------------------------------ non-vacuity *)
@@ -1710,7 +1961,7 @@ Qed.
 Lemma ex_admissible : adm_hist init_state L0 ex_ops.
 Proof.
   unfold ex_ops. simpl. repeat split; auto; try (unfold live; simpl; congruence); try (unfold L0, upd; simpl; lia).
-  - exists (mkNode 1 KObject [] (Some 0)). split; reflexivity.
+  - exists (mkNode 1 KObject [] (Some 0) true). split; reflexivity.
   - right. simpl. split; [unfold L0, upd; simpl; lia|].
     eapply ex_scalar_no_reach; [reflexivity|reflexivity|lia].
 Qed.
@@ -1728,8 +1979,8 @@ Proof.
 Qed.
 
 (* a failing operation in an admissible history: adding an object to itself *)
-Lemma ex_self_add : step (mkSt [(1, mkNode 1 KObject [] (Some 0))] 2) (OObjAdd 1 [107] (Some 1))
-                    = ROk (mkSt [(1, mkNode 1 KObject [] (Some 0))] 2) (-1) [].
+Lemma ex_self_add : step (mkSt [(1, mkNode 1 KObject [] (Some 0) true)] 2) (OObjAdd 1 [107] (Some 1))
+                    = ROk (mkSt [(1, mkNode 1 KObject [] (Some 0) true)] 2) (-1) [].
 Proof. reflexivity. Qed.
 
 (* ------------------------------------------------------------------ ownership of member names *)
@@ -1780,9 +2031,24 @@ Proof. intros. rewrite (all_released_empty h L H H0). reflexivity. Qed.
 (* non-vacuity: constant and copied keys in one object, replace keeps the flag *)
 Lemma ex_keys :
   exists s1 s2 s3,
-    step (mkSt [(1, mkNode 1 KObject [] (Some 0))] 2) (OObjAddEx 1 [97] None true true) = ROk s1 0 [] /\
+    step (mkSt [(1, mkNode 1 KObject [] (Some 0) true)] 2) (OObjAddEx 1 [97] None true true) = ROk s1 0 [] /\
     step s1 (OObjAddEx 1 [98] None false false) = ROk s2 0 [] /\
     step s2 (OObjAddEx 1 [97] None false false) = ROk s3 0 [] /\
     heap_key_copies (heap_of s3) = 1 /\
     option_map children (hfind (heap_of s3) 1) = Some [(kmark [97], None); ([98], None)].
 Proof. repeat eexists; reflexivity. Qed.
+
+(* non-vacuity: a registration with NULL userdata is released when it is replaced, the reset
+   releases the next one, the destruction then has nothing left to call *)
+Definition ex_reg_ops : list op := [ONew KScalar; OSetUd 1 false true; OSetUd 1 false false; OPut 1].
+
+Lemma ex_regs :
+  adm_hist init_state L0 ex_reg_ops /\
+  exists s' L' tr, run init_state L0 ex_reg_ops = Some (s', L', tr) /\
+    rels (all_evs tr) = [(1, 0); (1, 2)] /\ all_evs tr = [EUser 1 0; EUser 1 2; EDestroy 1 None].
+Proof.
+  split.
+  - unfold ex_reg_ops. simpl. repeat split; auto; try (unfold live; simpl; congruence).
+    unfold L0, upd. simpl. lia.
+  - eexists. eexists. eexists. split; [cbv -[upd upd_opt L0]; reflexivity|]. split; reflexivity.
+Qed.
